@@ -1,3 +1,3 @@
-@property
-def nsmap(self):
-    return self._nsmap
+@nsmap.setter
+def nsmap(self, nsmap: dict):
+    self._nsmap = nsmap
